@@ -29,7 +29,7 @@ PROP = {
     "streams": [{"name": "c08", "shards": {"quick": 2, "thorough": 16}}],
     "modules": ["GbVerif.Model.Core", "GbVerif.Spec.CoreSpec", "GbVerif.Spec.Interrupt", "GbVerif.Proofs.CoreIrq",
                 "GbVerif.Proofs.CoreCycles", "GbVerif.Proofs.CoreStep", "GbVerif.Proofs.CoreRefine"],
-    "rule": "all 8^<=3 (thorough 8^<=5) sequences x 3 IME x 3 run x 4 IF/IE patterns + 500 (20000) random sequences of length 4..12; "
+    "rule": "values written to IF / IE include 0xE0, 0xE4, 0xFF (unconnected upper bits); all 8^<=3 (thorough 8^<=5) sequences x 3 IME x 3 run x 4 IF/IE patterns + 500 (20000) random sequences of length 4..12; "
             "non-trivial = a dispatch happened or the CPU was suspended at some step",
     "assumptions": ["update_refines_spec_partial: InstrRefines (instruction-level refinement incl. fetch view = bus read and "
                     "preservation of bus well-formedness) is a hypothesis of the theorem",
